@@ -108,6 +108,10 @@ def wrap(x):
     """wrap numbers of a (nested) python / numpy value into Num; lists stay lists"""
     import numpy as np
 
+    import enum
+
+    if isinstance(x, enum.Enum):
+        return x
     if isinstance(x, (bool, np.bool_)):
         return bool(x)
     if isinstance(x, (int, np.integer)):
@@ -193,6 +197,84 @@ def is_int(v):
     return isinstance(v, int) and not isinstance(v, bool)
 
 
+def is_str(v):
+    return isinstance(v, str)
+
+
+def is_float(v):
+    return isinstance(v, (float, Num)) and not isinstance(getattr(v, "v", None), int) or isinstance(v, float)
+
+
+def is_none(v):
+    return v is None
+
+
+def is_nan(v):
+    try:
+        return math.isnan(float(_f(v)))
+    except (TypeError, ValueError):
+        return False
+
+
+def valid_text(v):
+    return isinstance(v, str) and ";" not in v
+
+
+def valid_text32(v):
+    return isinstance(v, str) and ";" not in v and len(v) <= 32
+
+
+def pow2(n):
+    return 2 ** int(_f(n))
+
+
+def is_tip(v):
+    return type(v).__name__ == "Tip"
+
+
+def tip_number_ok(v):
+    if is_tip(v):
+        return v.value != -1
+    return is_int(v) and 1 <= v <= 8
+
+
+def tip_bit(v):
+    return v.value if is_tip(v) else 2 ** (int(v) - 1)
+
+
+def tip_of_int(n):
+    from robotools.evotools.types import Tip
+
+    return Tip(2 ** (int(n) - 1))
+
+
+def is_collection(v):
+    return isinstance(v, (list, tuple, set, dict)) or type(v).__name__ == "ndarray"
+
+
+def tip_collection_ok(v):
+    return all(tip_number_ok(x) for x in v)
+
+
+def tipmask(v):
+    if is_collection(v):
+        m = 0
+        for x in v:
+            m |= tip_bit(x)
+        return m
+    return tip_bit(v)
+
+
+def fmt_volume(v):
+    import numpy as np
+
+    return f"{np.round(float(_f(v)), decimals=2):.2f}"
+
+
+def as_float(v):
+    return Num(float(_f(v)))
+
+
 def well(r, c):
     return f"{'ABCDEFGHIJKLMNOPQRSTUVWXYZ'[int(_f(r))]}{int(_f(c)):02d}"
 
@@ -217,6 +299,21 @@ def _max(*a):
 
 def same(a, b):
     return a == b
+
+
+def colmajor(a):
+    import numpy as np
+
+    arr = np.asarray(_unwrap(a), dtype=object) if not isinstance(a, np.ndarray) else a
+    return [wrap(x) for x in arr.flatten("F").tolist()]
+
+
+def _unwrap(x):
+    if isinstance(x, Num):
+        return x.v
+    if isinstance(x, (list, tuple)):
+        return type(x)(_unwrap(e) for e in x)
+    return x
 
 
 NS = {k: v for k, v in globals().items() if callable(v) and not k.startswith("_") and k not in ("wrap", "Num", "CeilSet", "Fraction")}
